@@ -13,7 +13,6 @@ if s.count(old)<1: print("MUTATION TARGET NOT FOUND"); sys.exit(1)
 open(p,'w').write(s.replace(old,new,1))
 PY
 for c in $checks; do
-  out=$(FAST_TICC_REPO="$wt" /verif/check "$c" --tier "$tier" 2>&1); rc=$?
+  out=$(TICCMON_EVIDENCE_DIR="$wt/.ev" TICCMON_REPLAY_DIR="$wt/.rp" FAST_TICC_REPO="$wt" /verif/check "$c" --tier "$tier" 2>&1); rc=$?
   echo "== $c rc=$rc :: $(echo "$out" | grep -E 'witness|INCONCLUSIVE' | head -2 | cut -c1-300)"
 done
-# the evidence files were overwritten by runs against the scratch tree: caller should re-run on /repo
